@@ -95,11 +95,30 @@ func Tick() {
 	if !active.Load() {
 		return
 	}
-	if n := ticks.Add(1); maxTicks > 0 && n > maxTicks+2*dynSteps.Load() {
+	n := ticks.Add(1)
+	if maxTicks > 0 && n > maxTicks+2*dynSteps.Load() {
 		livelock.Store(true)
 		ParkForever()
 	}
+	if preemptEvery > 0 {
+		// Preemption point: with strict serialisation the global tick sequence is a function of the run, so this
+		// decision is too.  A goroutine parked here is in the middle of a function, between two synchronisation
+		// operations - the interleavings real parallel execution (or Go's asynchronous preemption) allows and
+		// channel-granularity scheduling never produces: unsynchronised shared state becomes observable.
+		z := uint64(n)*0x9e3779b97f4a7c15 ^ preemptSeed
+		z = (z ^ (z >> 30)) * 0xbf58476d1ce4e5b9
+		z = (z ^ (z >> 27)) * 0x94d049bb133111eb
+		z ^= z >> 31
+		if z%preemptEvery == 0 {
+			Yield("preempt")
+		}
+	}
 }
+
+var (
+	preemptEvery uint64
+	preemptSeed  uint64
+)
 
 func Locked() {
 	if active.Load() {
@@ -234,6 +253,7 @@ type Config struct {
 	MaxSteps   int     `json:"max_steps"`
 	MaxTicks   int64   `json:"max_ticks"`
 	CrashStep  int     `json:"crash_step"`
+	Preempt    int     `json:"preempt"` // > 0: park at loop heads, on average once every Preempt loop iterations (seeded)
 	WantTrace  bool    `json:"want_trace"`
 	WantChoice bool    `json:"want_choices"`
 }
@@ -322,6 +342,10 @@ func Run(cfg Config, wait func(), sut func()) *Outcome {
 		cfg.MaxSteps = 2000000
 	}
 	maxTicks = cfg.MaxTicks
+	if cfg.Preempt > 0 {
+		preemptEvery = uint64(cfg.Preempt)
+		preemptSeed = uint64(cfg.Seed)*0xd1342543de82ef95 + 0x2545f4914f6cdd1d
+	}
 	th := fnv.New64a()
 	states := map[uint64]struct{}{}
 	choicePos := 0
